@@ -355,36 +355,57 @@ Proof.
 Qed.
 
 (* ------------------------------------------------------------------ two-phase region: three real roots of the cubic *)
-Definition disc_expr (Rg T P : Q) (m : list (list Q)) (cs : list gcomp) : rexpr :=
+(* the pressure at which the cubic is examined is an expression: the reported pressure, or the Peng-Robinson pressure of the
+   reported molar volume (the engine replaces the latter by the spinodal pressure inside the two-phase region) *)
+Definition disc_expr_g (Rg T : Q) (Pe : rexpr) (m : list (list Q)) (cs : list gcomp) : rexpr :=
   let RT := RT_expr Rg T in
   let b := bmix_expr (cexps Rg T cs) in let a := amix_expr m (cexps Rg T cs) in
-  let r1 := Sub b (Div RT (cQ P)) in
-  let r2 := Add (Mul (Neg (Const 3)) (Mul b b)) (Div (Sub a (Mul (Mul (Const 2) RT) b)) (cQ P)) in
-  let r3 := Add (Mul (Mul b b) b) (Div (Sub (Mul RT (Mul b b)) (Mul a b)) (cQ P)) in
+  let r1 := Sub b (Div RT Pe) in
+  let r2 := Add (Mul (Neg (Const 3)) (Mul b b)) (Div (Sub a (Mul (Mul (Const 2) RT) b)) Pe) in
+  let r3 := Add (Mul (Mul b b) b) (Div (Sub (Mul RT (Mul b b)) (Mul a b)) Pe) in
   Sub (Sub (Add (Sub (Mul (Mul (Mul (Const 18) r1) r2) r3) (Mul (Mul (Const 4) (Mul (Mul r1 r1) r1)) r3))
                 (Mul (Mul (Mul r1 r1) r2) r2))
            (Mul (Const 4) (Mul (Mul r2 r2) r2)))
       (Mul (Const 27) (Mul r3 r3)).
 
-Definition disc_R (Rg T P : Q) (m : list (list Q)) (cs : list gcomp) : R :=
+Definition disc_Rg (Rg T : Q) (P : R) (m : list (list Q)) (cs : list gcomp) : R :=
   let RT := Q2R Rg * Q2R T in
   let b := b_mix (comps_R Rg T cs) in let a := a_mix (kfR m) (comps_R Rg T cs) in
-  cubic_disc (pr_r1 RT (Q2R P) b a) (pr_r2 RT (Q2R P) b a) (pr_r3 RT (Q2R P) b a).
+  cubic_disc (pr_r1 RT P b a) (pr_r2 RT P b a) (pr_r3 RT P b a).
+Definition disc_R (Rg T P : Q) (m : list (list Q)) (cs : list gcomp) : R := disc_Rg Rg T (Q2R P) m cs.
 
-Lemma disc_expr_ok : forall env Rg T P m cs, evalR env (disc_expr Rg T P m cs) = disc_R Rg T P m cs.
+Lemma disc_expr_g_ok : forall env Rg T Pe m cs, evalR env (disc_expr_g Rg T Pe m cs) = disc_Rg Rg T (evalR env Pe) m cs.
 Proof.
-  intros. unfold disc_expr, disc_R, cubic_disc, pr_r1, pr_r2, pr_r3, RT_expr, cQ. cbn [evalR].
+  intros. unfold disc_expr_g, disc_Rg, cubic_disc, pr_r1, pr_r2, pr_r3, RT_expr, cQ. cbn [evalR].
   rewrite bmix_expr_ok, amix_expr_ok, comps_of_cexps, Q2R_2, Q2R_3.
   replace (Q2R 18) with 18 by (unfold Q2R; simpl; lra). replace (Q2R 4) with 4 by (unfold Q2R; simpl; lra).
   replace (Q2R 27) with 27 by (unfold Q2R; simpl; lra). reflexivity.
 Qed.
 
 Definition check_three_roots (Rg T P : Q) (m : list (list Q)) (cs : list gcomp) : bool :=
-  check_lt0 prec80 [] (Neg (disc_expr Rg T P m cs)).
+  check_lt0 prec80 [] (Neg (disc_expr_g Rg T (cQ P) m cs)).
 Theorem check_three_roots_sound : forall Rg T P m cs, check_three_roots Rg T P m cs = true ->
   0 < disc_R Rg T P m cs.
 Proof.
   intros Rg T P m cs H. unfold check_three_roots in H.
   apply (check_lt0_sound prec80 [] (env_of_Q [])) in H; [| apply (ienv_of_Q_contained prec80 [])].
-  destruct H as [_ H]. cbn [evalR] in H. rewrite disc_expr_ok in H. lra.
+  destruct H as [_ H]. cbn [evalR] in H. rewrite disc_expr_g_ok in H. unfold disc_R. unfold cQ in H. cbn [evalR] in H. lra.
+Qed.
+
+(* the same at the Peng-Robinson pressure of the reported volume, or that pressure is not even positive *)
+Definition check_three_roots_at_V (Rg T V : Q) (m : list (list Q)) (cs : list gcomp) : bool :=
+  check_lt0 prec80 [] (Neg (disc_expr_g Rg T (P_eos_expr Rg T V m cs) m cs)).
+Theorem check_three_roots_at_V_sound : forall Rg T V m cs, check_three_roots_at_V Rg T V m cs = true ->
+  0 < disc_Rg Rg T (P_eos_R Rg T V m cs) m cs.
+Proof.
+  intros Rg T V m cs H. unfold check_three_roots_at_V in H.
+  apply (check_lt0_sound prec80 [] (env_of_Q [])) in H; [| apply (ienv_of_Q_contained prec80 [])].
+  destruct H as [_ H]. cbn [evalR] in H. rewrite disc_expr_g_ok, P_eos_expr_ok in H. lra.
+Qed.
+Definition check_nonpositive_pressure_at_V (Rg T V : Q) (m : list (list Q)) (cs : list gcomp) : bool :=
+  check_le0_Q prec80 [] (P_eos_expr Rg T V m cs).
+Theorem check_nonpositive_pressure_at_V_sound : forall Rg T V m cs, check_nonpositive_pressure_at_V Rg T V m cs = true ->
+  P_eos_R Rg T V m cs <= 0.
+Proof.
+  intros Rg T V m cs H. apply check_le0_Q_sound in H. destruct H as [_ H]. rewrite P_eos_expr_ok in H. exact H.
 Qed.
